@@ -176,6 +176,14 @@ def _call(item):
     return ('err', traceback.format_exc())
 
 
+def thorough_budget(tier, default=600.0):
+  """Wall-clock seconds the schedule explorations of one thorough run may take in total (None = unlimited: quick tier,
+  whose configurations are sized to finish)."""
+  if tier != 'thorough':
+    return None
+  return float(os.environ.get('VERIF_THOROUGH_BUDGET_S', default))
+
+
 def pmap(worker, items, jobs=None, chunksize=None):
   """Ordered parallel map; worker exceptions abort the check loudly."""
   global _WORKER
